@@ -60,7 +60,7 @@ fn one_with_coords<G: GraphLike>(a: &Value, be: &str, seed: u64) -> Value {
 
 pub fn record_diagram(a: &Value, tr: &mut Tr) {
     tr.group();
-    tr.emit(json!({"k": "reset", "pre": a}));
+    tr.emit(with_ref(json!({"k": "reset", "pre": a}), || (a["ins"].as_array().unwrap().len() + a["outs"].as_array().unwrap().len(), crate::refeval::ref_den(a))));
     let ev = one::<quizx::vec_graph::Graph>(a, "vec");
     let eh = one::<quizx::hash_graph::Graph>(a, "hash");
     let same = {
@@ -89,7 +89,7 @@ pub fn record_diagram(a: &Value, tr: &mut Tr) {
 pub fn record_circuit(cj: &Value, tr: &mut Tr) {
     let c = circ_from_json(cj);
     tr.group();
-    tr.emit(json!({"k": "circ", "c": cj}));
+    tr.emit(with_ref(json!({"k": "circ", "c": cj}), || (2 * c.num_qubits(), crate::refeval::ref_circ(cj))));
     match guarded(|| (c.to_tensor4(), c.to_tensorf())) {
         Err(msg) => tr.emit(json!({"k": "ctensor", "res": "panic", "msg": msg})),
         Ok((t4, tf)) => tr.emit(json!({"k": "ctensor", "res": "ok", "rank": t4.ndim(), "t": t4_json(&t4), "fok": float_close(&t4, &tf)})),
@@ -683,4 +683,185 @@ pub fn record_extra(args: &[String], seed: u64, tr: &mut Tr) -> Value {
     let wide = record_wide_circuits(arg_num(args, "--wide", 0), &mut r, tr, if arg_flag(args, "--wide7") { 7 } else { 6 });
     let unsup = if arg_flag(args, "--unsupported") { record_unsupported(tr) } else { 0 };
     json!({"helper_pairs": helpers, "helper_objects": objects, "qubit_ops": qops, "plugs": plugs, "wide_ops": wops, "wide_circuits": wide, "unsupported": unsup})
+}
+
+// ---------------------------------------------------------------------------------------------
+// The float reference evaluator (refeval.rs) as a CHECKED artefact, and the GENERIC-PHASE tier of C08.
+//   --ref        the headers `reset` / `circ` additionally carry `ref`: the tensor refeval.rs computes for the (pi/4) diagram /
+//                circuit, per entry [round(re * 2^20), round(im * 2^20)]; mc/Trace_Tensor.tla (RefEvalOK) compares it entry by
+//                entry with the exact tensor TLC computes from the specification (Den / CircSem).  Off by default: existing
+//                traces stay byte-identical.
+//   --generic N  N seeded diagrams and N seeded circuits whose phases are NOT multiples of pi/4: to_tensorf against the
+//                reference evaluator at 1e-9 (`fok`), and to_tensor4 - whose entries are then float-approximate Scalar4 values,
+//                converted with complex_value() - likewise (`f4ok`); both backends, default and scattered coordinates.
+//                Floating point cannot be decided by TLC: the booleans are computed here, Trace_Tensor judges them
+//                (FloatTensorOK, Tensor4FloatOK, NoPanic).
+//   begin {what: "generic", pre}  /  tensorf {be, coords, res, rankok, fok, f4ok, approx}
+//   begin {what: "generic_circ", c}  /  ctensorf {via: "circuit"|"to_graph", res, rankok, fok, f4ok, approx}
+// ---------------------------------------------------------------------------------------------
+
+static REF_ON: std::sync::atomic::AtomicBool = std::sync::atomic::AtomicBool::new(false);
+
+pub fn set_ref(on: bool) {
+    REF_ON.store(on, std::sync::atomic::Ordering::Relaxed);
+}
+
+/// add the reference tensor to a header when `--ref` is on (rank <= 8, every entry below 2^10 in absolute value)
+fn with_ref(mut header: Value, f: impl FnOnce() -> (usize, Vec<crate::refeval::C>)) -> Value {
+    if REF_ON.load(std::sync::atomic::Ordering::Relaxed) {
+        let (rank, t) = f();
+        if rank <= crate::refeval::REF_MAX_RANK && t.len() == 1usize << rank {
+            if let Some(j) = crate::refeval::ref_json(&t) {
+                header["ref"] = j;
+            }
+        }
+    }
+    header
+}
+
+fn tensors_vs_ref(t4: &Tensor4, tf: &TensorF, want: &[crate::refeval::C], rank: usize) -> Value {
+    use crate::refeval::close;
+    let rankok = t4.ndim() == rank && tf.ndim() == rank && t4.shape().iter().all(|&d| d == 2) && tf.shape().iter().all(|&d| d == 2);
+    let f: Vec<Complex<f64>> = tf.iter().copied().collect();
+    let f4: Vec<Complex<f64>> = t4.iter().map(|s| s.complex_value()).collect();
+    json!({"rankok": rankok, "fok": rankok && close(&f, want, 1e-9), "f4ok": rankok && close(&f4, want, 1e-9),
+           "approx": t4.iter().any(crate::absg::sc_is_approx)})
+}
+
+fn merge(mut e: Value, more: Value) -> Value {
+    for (k, v) in more.as_object().unwrap() {
+        e[k] = v.clone();
+    }
+    e
+}
+
+fn generic_one<G: GraphLike>(a: &Value, be: &str, scatter: Option<u64>, want: &[crate::refeval::C]) -> Value {
+    use rand::Rng;
+    let mut g: G = crate::refeval::build_f(a);
+    if let Some(seed) = scatter {
+        let mut r = crate::gens::rng(seed);
+        for v in g.vertex_vec() {
+            g.set_row(v, r.random_range(-4..=10) as f64 * 0.5);
+            g.set_qubit(v, r.random_range(-2..=6) as f64 * 0.5);
+        }
+    }
+    let head = json!({"k": "tensorf", "be": be, "coords": if scatter.is_some() { "scattered" } else { "default" }});
+    let rank = a["ins"].as_array().unwrap().len() + a["outs"].as_array().unwrap().len();
+    match guarded(|| (g.to_tensor4(), g.to_tensorf())) {
+        Err(msg) => merge(head, json!({"res": "panic", "msg": msg})),
+        Ok((t4, tf)) => merge(merge(head, json!({"res": "ok"})), tensors_vs_ref(&t4, &tf, want, rank)),
+    }
+}
+
+pub fn record_generic_diagram(a: &Value, tr: &mut Tr) {
+    tr.group();
+    tr.emit(json!({"k": "begin", "what": "generic", "pre": a}));
+    let want = crate::refeval::ref_den(a);
+    let ev = generic_one::<quizx::vec_graph::Graph>(a, "vec", None, &want);
+    let eh = generic_one::<quizx::hash_graph::Graph>(a, "hash", None, &want);
+    let same = {
+        let (mut x, mut y) = (ev.clone(), eh.clone());
+        x["be"] = json!("");
+        y["be"] = json!("");
+        x == y
+    };
+    if same {
+        tr.emit(merge(ev, json!({"be": "both"})));
+    } else {
+        tr.emit(ev);
+        tr.emit(eh);
+    }
+    let seed = a.to_string().bytes().fold(1469598103934665603u64, |h, b| (h ^ b as u64).wrapping_mul(1099511628211));
+    if seed % 2 == 0 {
+        tr.emit(generic_one::<quizx::vec_graph::Graph>(a, "vec", Some(seed), &want));
+    } else {
+        tr.emit(generic_one::<quizx::hash_graph::Graph>(a, "hash", Some(seed), &want));
+    }
+}
+
+pub fn record_generic_circuit(cj: &Value, tr: &mut Tr) {
+    let c = circ_from_json(cj);
+    tr.group();
+    tr.emit(json!({"k": "begin", "what": "generic_circ", "c": cj}));
+    let want = crate::refeval::ref_circ(cj);
+    let rank = 2 * c.num_qubits();
+    let head = |via: &str| json!({"k": "ctensorf", "via": via});
+    tr.emit(match guarded(|| (c.to_tensor4(), c.to_tensorf())) {
+        Err(msg) => merge(head("circuit"), json!({"res": "panic", "msg": msg})),
+        Ok((t4, tf)) => merge(merge(head("circuit"), json!({"res": "ok"})), tensors_vs_ref(&t4, &tf, &want, rank)),
+    });
+    // the same map through the diagram (to_graph is judged by C02; here the diagram evaluator sees circuit-shaped inputs)
+    tr.emit(match guarded(|| {
+        let g: quizx::vec_graph::Graph = c.to_graph();
+        (g.to_tensor4(), g.to_tensorf())
+    }) {
+        Err(msg) => merge(head("to_graph"), json!({"res": "panic", "msg": msg})),
+        Ok((t4, tf)) => merge(merge(head("to_graph"), json!({"res": "ok"})), tensors_vs_ref(&t4, &tf, &want, rank)),
+    });
+}
+
+/// With `--ref`: pi/4 inputs of exactly the SHAPES the generic-phase tiers of the five engines hand to the reference evaluator
+/// (arbitrary ZX and graph-like diagrams with phase gadgets from the generic tier's configurations, diagrams produced by
+/// to_graph in its modes, simplified circuit diagrams, circuits with parity-phase gates), so that RefEvalOK validates the
+/// oracle where it is used.  Diagrams go through `record_diagram` (the library's tensor is judged as usual); a circuit with a
+/// parity-phase gate is a header only (the library's circuit evaluator does not support the gate).
+fn record_ref_shapes(n: usize, r: &mut rand::rngs::StdRng, tr: &mut Tr) -> usize {
+    use crate::circ::{ag_json, random_circuit, Alphabet};
+    use crate::gens::{random_diagram, RandCfg};
+    use rand::Rng;
+    let mut cnt = 0;
+    for i in 0..n {
+        match i % 4 {
+            0 => record_diagram(&random_diagram(r, &RandCfg { min_sp: 1, max_sp: 6, max_b: 3, ..RandCfg::any_zx() }), tr),
+            1 => record_diagram(&random_diagram(r, &RandCfg { min_sp: 1, max_sp: 5, max_b: 3, phs: vec![0, 1, 2, 3, 4, 6], gadgets: 2, ..RandCfg::graph_like() }), tr),
+            _ => {
+                let nq = r.random_range(1..=3usize);
+                let mut al = Alphabet::unitary();
+                al.threeq = vec![];
+                if nq < 2 {
+                    al.twoq = vec![];
+                    al.pp = false;
+                }
+                let len = r.random_range(1..=5usize);
+                let cj = ag_json(nq, &random_circuit(r, nq, len, &al));
+                if i % 4 == 2 {
+                    tr.group();
+                    tr.emit(with_ref(json!({"k": "circ", "c": cj}), || (2 * nq, crate::refeval::ref_circ(&cj))));
+                } else {
+                    let c = circ_from_json(&cj);
+                    let g: quizx::vec_graph::Graph = match (i / 4) % 3 {
+                        0 => c.to_graph(),
+                        1 => c.to_graph_with_options(true, false),
+                        _ => {
+                            let mut g: quizx::vec_graph::Graph = c.to_graph();
+                            quizx::simplify::clifford_simp(&mut g);
+                            g
+                        }
+                    };
+                    let a = crate::absg::abs(&g);
+                    if !a["sc"].is_array() {
+                        continue;
+                    }
+                    record_diagram(&a, tr);
+                }
+            }
+        }
+        cnt += 1;
+    }
+    cnt
+}
+
+pub fn record_generic(n: usize, seed: u64, tr: &mut Tr) -> Value {
+    let mut r = crate::gens::rng(seed ^ 0x6e7e);
+    let shapes = if REF_ON.load(std::sync::atomic::Ordering::Relaxed) { record_ref_shapes(n, &mut r, tr) } else { 0 };
+    for i in 0..n {
+        let a = crate::gens::generic_diagram(&mut r, i);
+        record_generic_diagram(&a, tr);
+    }
+    // the circuit evaluator does not support parity-phase gates
+    for _ in 0..n {
+        let cj = crate::circ::generic_circuit(&mut r, 3, 7, false, 1);
+        record_generic_circuit(&cj, tr);
+    }
+    json!({"generic_diagrams": n, "generic_circuits": n, "ref_shapes": shapes})
 }
